@@ -1,26 +1,72 @@
-"""AI-int — abstract interpretation of a pure integer function over the partition of one argument
-induced by the constants it is compared with.  Yields [(lo, hi, value)] (piecewise-constant result)."""
+"""AI-int — abstract interpretation of a pure integer function over the partition of one argument x induced by the constants
+it (or |x|) is compared with.  Explores all paths (loops are unrolled while the tracked values stay concrete), keeps the set of
+x that reaches each return and the concrete integer returned.  Yields [(lo, hi, value)] (piecewise-constant result)."""
+import re
 
 _CMP = {"Lt", "Le", "Gt", "Ge", "Eq", "Ne"}
+_FLIP = {"Lt": "Gt", "Le": "Ge", "Gt": "Lt", "Ge": "Le", "Eq": "Eq", "Ne": "Ne"}
 
 
 class Unsupported(Exception):
     pass
 
 
-def piecewise(fn, is_x_place, lo, hi, max_paths=4096):
-    """is_x_place(place) -> True when the place holds the abstracted argument x.
-    Explores every CFG path from entry, splitting [lo,hi] at comparisons of x with constants,
-    tracking integer constants in locals.  Returns sorted list of (lo, hi, return value)."""
+def _split(dom, who, op, c):
+    """(true part, false part) of the interval list `dom` under `who op c` (who in 'x','abs')"""
+    def sat_x(lo, hi):
+        if op == "Ge": return [(max(lo, c), hi)]
+        if op == "Gt": return [(max(lo, c + 1), hi)]
+        if op == "Le": return [(lo, min(hi, c))]
+        if op == "Lt": return [(lo, min(hi, c - 1))]
+        if op == "Eq": return [(max(lo, c), min(hi, c))]
+        return [(lo, min(hi, c - 1)), (max(lo, c + 1), hi)]
+    tr, fa = [], []
+    inv = {"Ge": "Lt", "Gt": "Le", "Le": "Gt", "Lt": "Ge", "Eq": "Ne", "Ne": "Eq"}[op]
+    for lo, hi in dom:
+        if who == "x":
+            tr += sat_x(lo, hi)
+            saved = op
+            parts = _split([(lo, hi)], "x", inv, c)[0] if False else None
+        else:
+            # |x| op c  <=>  over x>=0: x op c ; over x<0: -x op c  <=>  x op' -c
+            pos = (max(lo, 0), hi)
+            neg = (lo, min(hi, -1))
+            if pos[0] <= pos[1]:
+                tr += [iv for iv in _split([pos], "x", op, c)[0]]
+            if neg[0] <= neg[1]:
+                tr += [iv for iv in _split([neg], "x", _FLIP[op] if op not in ("Eq", "Ne") else op, -c)[0]]
+    tr = [(a, b) for a, b in tr if a <= b]
+    # false part = dom minus tr
+    fa = _minus(dom, tr)
+    return tr, fa
+
+
+def _minus(dom, sub):
     out = []
-    # state: (block, x_lo, x_hi, env) ; env: local -> int | ('x',) | ('cmp', op, c, swapped) | ('pair', val)
-    work = [(0, lo, hi, {})]
-    n = 0
+    for lo, hi in dom:
+        cur = [(lo, hi)]
+        for a, b in sub:
+            nxt = []
+            for x, y in cur:
+                if b < x or a > y:
+                    nxt.append((x, y))
+                else:
+                    if x < a: nxt.append((x, a - 1))
+                    if b < y: nxt.append((b + 1, y))
+            cur = nxt
+        out += cur
+    return out
+
+
+def piecewise(fn, is_x_place, lo, hi, max_steps=200000):
+    out = []
+    work = [(0, 0, [(lo, hi)], {})]   # block, stmt index, domain, env
+    steps = 0
     while work:
-        n += 1
-        if n > max_paths * 64:
+        steps += 1
+        if steps > max_steps:
             raise Unsupported("path explosion")
-        b, xl, xh, env = work.pop()
+        b, si0, dom, env = work.pop()
         env = dict(env)
 
         def val(op):
@@ -35,7 +81,17 @@ def piecewise(fn, is_x_place, lo, hi, max_paths=4096):
                 return None
             return op.get("v")
 
-        for s in fn.stmts(b):
+        def fork_on(cmpv, cont):
+            """concretise a comparison value: continue twice with 1 / 0"""
+            tr, fa = _split(dom, cmpv[1], cmpv[2], cmpv[3])
+            for part, v in ((tr, 1), (fa, 0)):
+                if part:
+                    cont(part, v)
+
+        stmts = fn.stmts(b)
+        forked = False
+        for si in range(si0, len(stmts)):
+            s = stmts[si]
             if s[0] != "a":
                 continue
             pl, rv = s[1], s[2]
@@ -47,14 +103,21 @@ def piecewise(fn, is_x_place, lo, hi, max_paths=4096):
                 v = val(rv[1])
             elif k == "cast":
                 v = val(rv[2])
+                if isinstance(v, tuple) and v[0] == "cmp":
+                    def cont(part, bit, pl=pl, si=si):
+                        e2 = dict(env); e2[pl[0]] = bit
+                        work.append((b, si + 1, part, e2))
+                    fork_on(v, cont)
+                    forked = True
+                    break
             elif k == "bin":
                 a, c = val(rv[2]), val(rv[3])
                 op = rv[1]
                 if op in _CMP:
-                    if a == ("x",) and isinstance(c, int):
-                        v = ("cmp", op, c)
-                    elif c == ("x",) and isinstance(a, int):
-                        v = ("cmp", {"Lt": "Gt", "Le": "Ge", "Gt": "Lt", "Ge": "Le"}.get(op, op), a)
+                    if isinstance(a, tuple) and a[0] in ("x", "abs") and isinstance(c, int):
+                        v = ("cmp", a[0], op, c)
+                    elif isinstance(c, tuple) and c[0] in ("x", "abs") and isinstance(a, int):
+                        v = ("cmp", c[0], _FLIP[op], a)
                     elif isinstance(a, int) and isinstance(c, int):
                         v = int({"Lt": a < c, "Le": a <= c, "Gt": a > c, "Ge": a >= c, "Eq": a == c, "Ne": a != c}[op])
                 elif isinstance(a, int) and isinstance(c, int):
@@ -63,54 +126,70 @@ def piecewise(fn, is_x_place, lo, hi, max_paths=4096):
                     if r is not None:
                         v = ("pair", r) if op.endswith("WithOverflow") else r
             env[pl[0]] = v
+        if forked:
+            continue
         t = fn.term(b)
         k = t[0]
         if k == "goto":
-            work.append((t[1], xl, xh, env))
+            work.append((t[1], 0, dom, env))
         elif k == "assert":
-            work.append((t[4], xl, xh, env))
+            work.append((t[4], 0, dom, env))
         elif k == "ret":
             r = env.get(0)
             if not isinstance(r, int):
-                raise Unsupported("non-constant return on path x in [%s,%s]" % (xl, xh))
-            out.append((xl, xh, r))
+                raise Unsupported("non-constant return for x in %s" % (dom[:2],))
+            for a_, b_ in dom:
+                out.append((a_, b_, r))
         elif k == "switch":
             d = val(t[1])
             if isinstance(d, int):
                 tgt = next((x for vv, x in t[2] if vv == d), t[3])
-                work.append((tgt, xl, xh, env))
+                work.append((tgt, 0, dom, env))
             elif isinstance(d, tuple) and d[0] == "cmp":
-                op, c = d[1], d[2]
-                # true set / false set as interval lists
-                if op == "Ge":
-                    tr, fa = [(max(xl, c), xh)], [(xl, min(xh, c - 1))]
-                elif op == "Gt":
-                    tr, fa = [(max(xl, c + 1), xh)], [(xl, min(xh, c))]
-                elif op == "Le":
-                    tr, fa = [(xl, min(xh, c))], [(max(xl, c + 1), xh)]
-                elif op == "Lt":
-                    tr, fa = [(xl, min(xh, c - 1))], [(max(xl, c), xh)]
-                elif op == "Eq":
-                    tr, fa = [(max(xl, c), min(xh, c))], [(xl, min(xh, c - 1)), (max(xl, c + 1), xh)]
-                else:
-                    fa, tr = [(max(xl, c), min(xh, c))], [(xl, min(xh, c - 1)), (max(xl, c + 1), xh)]
+                tr, fa = _split(dom, d[1], d[2], d[3])
                 zero = [x for vv, x in t[2] if vv == 0]
                 f_tgt = zero[0] if zero else t[3]
                 t_tgt = t[3] if zero else t[2][0][1]
-                for (a_, b_) in tr:
-                    if a_ <= b_:
-                        work.append((t_tgt, a_, b_, env))
-                for (a_, b_) in fa:
-                    if a_ <= b_:
-                        work.append((f_tgt, a_, b_, env))
+                if tr:
+                    work.append((t_tgt, 0, tr, env))
+                if fa:
+                    work.append((f_tgt, 0, fa, env))
             else:
                 raise Unsupported("switch on unknown value in bb%d" % b)
         elif k == "call":
-            raise Unsupported("call in bb%d" % b)
+            nm = t[1].get("res") or t[1].get("path", "")
+            args = [val(a) for a in t[2]]
+            dest, tgt = t[3], t[4]
+            if tgt is None or len(dest) != 1:
+                raise Unsupported("call %s" % nm)
+            if re.search(r"::unsigned_abs$", nm) and args and args[0] == ("x",):
+                env[dest[0]] = ("abs",)
+                work.append((tgt, 0, dom, env))
+            elif re.search(r"convert::From<bool>>?::from$|convert::From<[ui]\d+>>?::from$|::from$|::into$", nm) and len(args) == 1:
+                a = args[0]
+                if isinstance(a, tuple) and a[0] == "cmp":
+                    def cont(part, bit, dest=dest, tgt=tgt):
+                        e2 = dict(env); e2[dest[0]] = bit
+                        work.append((tgt, 0, part, e2))
+                    fork_on(a, cont)
+                elif isinstance(a, int) or (isinstance(a, tuple) and a[0] in ("x", "abs")):
+                    env[dest[0]] = a
+                    work.append((tgt, 0, dom, env))
+                else:
+                    raise Unsupported("call %s on unknown value" % nm)
+            else:
+                raise Unsupported("call %s in bb%d" % (nm, b))
         else:
             raise Unsupported("terminator %s" % k)
+    # merge adjacent intervals with equal value
     out.sort()
-    return out
+    merged = []
+    for a, b_, v in out:
+        if merged and merged[-1][2] == v and merged[-1][1] + 1 == a:
+            merged[-1] = (merged[-1][0], b_, v)
+        else:
+            merged.append((a, b_, v))
+    return merged
 
 
 def decimal_len(n):
